@@ -569,6 +569,66 @@ func chainTimeLaws(c *harness.Ctx) {
 	}
 }
 
+// chainTimeEdges reads the clock at chosen positions inside a slot: the verdict of the bracket test above must not
+// depend on the fraction of a second at which the check happens to run. For each target fraction of a second it waits
+// (at most a second) for the wall clock to be there and then constructs services whose genesis (whole seconds, as the
+// beacon API delivers it) puts "now" in the last, the first or a middle second of a slot.
+func chainTimeEdges(c *harness.Ctx) {
+	for fi, frac := range []time.Duration{30 * time.Millisecond, 430 * time.Millisecond, 530 * time.Millisecond, 930 * time.Millisecond} {
+		for k := 0; k < 3; k++ {
+			id := fmt.Sprintf("chaintime-edge%d.%d", fi, k)
+			c.Case(id, func() {
+				r := c.Rand("chaintime-edge", fi, k)
+				now := time.Now()
+				wait := frac - time.Duration(now.Nanosecond())
+				if wait < 0 {
+					wait += time.Second
+				}
+				time.Sleep(wait)
+				for j := 0; j < 12; j++ {
+					slotSeconds := uint64(1 + r.Intn(24))
+					spe := uint64(1 + r.Intn(32))
+					slots := uint64(r.Intn(200000))
+					if j%4 == 3 {
+						slots = slots/spe*spe + spe - 1 // the last slot of an epoch
+					}
+					var within uint64 // whole seconds into the slot
+					switch j % 3 {
+					case 0:
+						within = slotSeconds - 1
+					case 1:
+						within = 0
+					default:
+						within = uint64(r.Intn(int(slotSeconds)))
+					}
+					genesis := time.Now().Truncate(time.Second).Add(-time.Duration(slots*slotSeconds+within) * time.Second)
+					s, err := chaintime.New(context.Background(), chaintime.WithLogLevel(zerolog.Disabled), chaintime.WithGenesisProvider(mock.NewGenesisProvider(genesis)),
+						chaintime.WithSpecProvider(specProv{slotSeconds, spe}))
+					if err != nil {
+						c.Inconclusive("chaintime.New: " + err.Error())
+						return
+					}
+					sd := time.Duration(slotSeconds) * time.Second
+					t0 := time.Now()
+					cs, ce := s.CurrentSlot(), s.CurrentEpoch()
+					t1 := time.Now()
+					lo, hi := uint64(t0.Sub(genesis)/sd), uint64(t1.Sub(genesis)/sd)
+					detail := map[string]any{"seconds_per_slot": slotSeconds, "slots_per_epoch": spe, "whole_seconds_into_slot": within, "fraction_of_second": time.Duration(t0.Nanosecond()).String()}
+					if uint64(cs) < lo || uint64(cs) > hi {
+						c.Violate("chaintime:current-slot", fmt.Sprintf("CurrentSlot()=%d outside [%d,%d]", cs, lo, hi), id, detail)
+					}
+					if uint64(ce) < lo/spe || uint64(ce) > hi/spe {
+						c.Violate("chaintime:current-epoch", fmt.Sprintf("CurrentEpoch()=%d outside [%d,%d]", ce, lo/spe, hi/spe), id, detail)
+					}
+					c.Eval(1)
+					c.Count("chaintime_edge_reads", 1)
+					c.Distinct(fmt.Sprintf("cte|%d|%d", fi, j%3))
+				}
+			})
+		}
+	}
+}
+
 type specProv struct{ sec, spe uint64 }
 
 func (p specProv) Spec(context.Context, *api.SpecOpts) (*api.Response[map[string]any], error) {
@@ -578,6 +638,7 @@ func (p specProv) Spec(context.Context, *api.SpecOpts) (*api.Response[map[string
 func run(c *harness.Ctx) {
 	harness.InitBLS()
 	chainTimeLaws(c)
+	chainTimeEdges(c)
 	n := c.N(240, 10000)
 	var wg sync.WaitGroup
 	sem := make(chan struct{}, 24)
